@@ -69,6 +69,7 @@ type Exec struct {
 	Locals   map[string]string // local state components: name -> sort
 	refEpoch map[string]string // fresh ref term -> epoch id at creation
 	neid     int
+	heapInv  bool // assume closure of the entry heap under allocation (needed by epoch-stable spec functions)
 	nlocal   int
 	Active   map[string]*Contract // schema contracts usable at recursive call sites
 	depth    int
@@ -658,7 +659,7 @@ func (x *Exec) mergeStates(c Term, a, b State) State {
 
 // entryHeapInv: the entry heap is closed under allocation (every reference stored in it exists).
 func (x *Exec) entryHeapInv(name string, t Term) {
-	if name == "alloc" {
+	if name == "alloc" || !x.heapInv {
 		return
 	}
 	var al string
